@@ -16,6 +16,9 @@ void vfp_init(int algo, void *ctx);
 void vfp_update(int algo, void *ctx, const void *p, size_t n);
 void vfp_final(int algo, void *ctx, unsigned char *out);
 int vfp_has_buf(int algo);
+/* put an initialised context into the state "bytes_hi:bytes_lo bytes (a multiple of the block length) already hashed,
+   chaining value st": 1 when supported for the algorithm */
+int vfp_resume(int algo, void *ctx, const uint32_t st32[8], const uint64_t st64[8], uint64_t bytes_hi, uint64_t bytes_lo);
 void vfp_buf(int algo, const void *p, size_t n, unsigned char *out);
 void vfp_hmac_sha1(const unsigned char *text, size_t tl, const unsigned char *key, size_t kl, unsigned char *out20);
 size_t vfp_hmac256_ctx_size(void);
